@@ -262,7 +262,8 @@ def genCase (idx : Nat) (big : Bool) : Gen Case := do
   let id := s!"C12-{idx}"
   let r ← rand 20
   if r < 10 then
-    let d ← rand (if big then 4 else 3)
+    let deep ← chance 1 8
+    let d ← if big && deep then pure 3 else rand 3
     let rep ← genRep false (d + 1)
     pure (rtCase id s!"reprrt/d{d + 1}" rep)
   else if r < 12 then
